@@ -23,7 +23,10 @@ EXTRA = {"c01-b-sob-reach": ["C04"], "c02-a-repeat-step-once": ["C16"], "c02-b-l
          "c11-f-extern-map-class": ["C18"], "c14-e-include-parse-cache": ["C18"], "c14-f-encoder-once": ["C18", "C05"], "c13-f-pulse-table-once": ["C18"], "c09-f-once-module-set": ["C18", "C16"],
          "c03-e-numeric-export-early": ["C11"], "c06-f-repeat-multiply": ["C16", "C02"], "c06-e-even-offset-parity": ["C02"], "c02-e-include-pending-size0": ["C16"], "c02-f-ascii-size-chars": ["C06"],
          "c08-f-wno-mutes-error": ["C07"], "c15-f-neg-rad50-literal": ["C05"], "c05-f-charlit-first-byte": ["C14"], "c12-f-include-presettle": ["C02"], "c10-f-push-fastpath": ["C01"],
-         "c04-e-shared-stub-state": ["C01"], "c19-f-fileno-late": ["C11"], "c03-f-extern-all-forgotten": ["C11"], "c08-e-repeat-end-reraise": ["C16"], "c12-e-length-no-try": ["C16"]}
+         "c04-e-shared-stub-state": ["C01"], "c19-f-fileno-late": ["C11"], "c03-f-extern-all-forgotten": ["C11"], "c08-e-repeat-end-reraise": ["C16"], "c12-e-length-no-try": ["C16"],
+         # fourth and fifth wave
+         "c04-g-pc-first-operand": ["C01"], "c10-g-paren-memoised": ["C16", "C05"], "c08-g-rad50-code-bound": ["C15"], "c05-g-self-add-coefficient": ["C03", "C09"],
+         "c02-g-concat-length-bytearray": ["C16"], "c07-g-inline-imm-bound": ["C01"], "c14-g-charlit-signed-byte": ["C05"]}
 
 
 def sh(cmd, **kw):
